@@ -179,20 +179,29 @@ func (c *cannedRT) RoundTrip(req *http.Request) (*http.Response, error) {
 }
 
 func clientProbe(status int, hdr http.Header, body string, c *counters) {
+	// a strict client reports missing required fields, a lenient one goes on with the partial value: both must survive
+	clientProbeMode(status, hdr, body, c, true)
+	clientProbeMode(status, hdr, body, c, false)
+}
+
+func clientProbeMode(status int, hdr http.Header, body string, c *counters, strict bool) {
 	u, _ := url.Parse("http://h")
 	rt := &cannedRT{status, hdr, body}
-	cl := &restli.Client{Client: &http.Client{Transport: rt}, HostnameResolver: &restli.SimpleHostnameResolver{Hostname: u}, StrictResponseDeserialization: true}
+	cl := &restli.Client{Client: &http.Client{Transport: rt}, HostnameResolver: &restli.SimpleHostnameResolver{Hostname: u}, StrictResponseDeserialization: strict}
 	ctx := context.Background()
 	rp := restli.ResourcePathString("/r1/1")
 	calls := map[string]func() error{
-		"Get":       func() error { _, err := restli.Get[*entT](cl, ctx, rp, nil); return err },
-		"GetAll":    func() error { _, err := restli.GetAll[*entT](cl, ctx, rp, nil); return err },
-		"Find":      func() error { _, err := restli.Find[*entT](cl, ctx, rp, restli.QueryParamsString("q=f")); return err },
-		"Create":    func() error { _, err := restli.Create[int64](cl, ctx, rp, &entT{}, nil, nil); return err },
-		"CreateRet": func() error { _, err := restli.CreateWithReturnEntity[int64](cl, ctx, rp, &entT{}, nil, nil); return err },
-		"Update":    func() error { return restli.Update(cl, ctx, rp, &entT{}, nil, nil) },
-		"Delete":    func() error { return restli.Delete(cl, ctx, rp, nil) },
-		"BatchGet":  func() error { _, err := restli.BatchGet[int64, *entT](cl, ctx, rp, []int64{1, 2}, nil); return err },
+		"Get":    func() error { _, err := restli.Get[*entT](cl, ctx, rp, nil); return err },
+		"GetAll": func() error { _, err := restli.GetAll[*entT](cl, ctx, rp, nil); return err },
+		"Find":   func() error { _, err := restli.Find[*entT](cl, ctx, rp, restli.QueryParamsString("q=f")); return err },
+		"Create": func() error { _, err := restli.Create[int64](cl, ctx, rp, &entT{}, nil, nil); return err },
+		"CreateRet": func() error {
+			_, err := restli.CreateWithReturnEntity[int64](cl, ctx, rp, &entT{}, nil, nil)
+			return err
+		},
+		"Update":      func() error { return restli.Update(cl, ctx, rp, &entT{}, nil, nil) },
+		"Delete":      func() error { return restli.Delete(cl, ctx, rp, nil) },
+		"BatchGet":    func() error { _, err := restli.BatchGet[int64, *entT](cl, ctx, rp, []int64{1, 2}, nil); return err },
 		"BatchDelete": func() error { _, err := restli.BatchDelete(cl, ctx, rp, []int64{1, 2}, nil); return err },
 		"BatchCreate": func() error { _, err := restli.BatchCreate[int64](cl, ctx, rp, []*entT{{}}, nil, nil); return err },
 		"Action": func() error {
@@ -208,8 +217,8 @@ func clientProbe(status int, hdr http.Header, body string, c *counters) {
 			defer func() {
 				if r := recover(); r != nil {
 					c.Panics++
-					violation("C04/http/client/"+name+"/panic", fmt.Sprintf("client call panicked on a malformed response (%d, %v, %q): %v", status, hdr, body, r),
-						map[string]any{"call": name, "status": status, "headers": hdr, "body": body})
+					violation("C04/http/client/"+name+"/panic", fmt.Sprintf("client call (strict=%v) panicked on a malformed response (%d, %v, %q): %v", strict, status, hdr, body, r),
+						map[string]any{"call": name, "status": status, "headers": hdr, "body": body, "strict": strict})
 				}
 			}()
 			if err := f(); err != nil {
